@@ -263,6 +263,7 @@ class P(Prop):
         for i in range(n):
             c = self.gen_case()
             self.oracle(c)
+            self.again_after_edit(c, lambda: self.oracle(c), p=0.2)
             if i % 4 == 0:
                 self.requery_after_edit(c)
             if self.too_many():
